@@ -176,6 +176,44 @@ class PackUnpack(Spec):
         return [("canary", z3.BoolVal(self._decrypts == 0))]
 
 
+class PackChildren(PackUnpack):
+    """pack_children(children, writekey): what is packed depends on the children and on THIS directory's write key only --
+    entries cached inside a listing that came from another directory (AuxValueDict, as DirectoryNode.list() returns it)
+    are not reused, so a listing can be given as the initial children of a new directory"""
+    qualname = "pack_children"
+    bound = "2 children, 4 child kinds each; listing with and without foreign cached entries"
+    canary_case = {"k0": "rw", "k1": "imm", "mode": "rw"}
+
+    def all_cases(self):
+        return [{"k0": k0, "k1": k1, "mode": "rw"} for k0 in KINDS for k1 in KINDS]
+
+    def run(self, I, a):
+        from allmydata.util.dictutil import AuxValueDict
+        self._created, self._decrypts, self._writekey = [], 0, a["writekey"]
+        plain = {}
+        listing = SObj(AuxValueDict, {"__dictdata__": {}})
+        I.call_value(I.get_attr(listing, "__init__"), [], {})
+        for i, name in enumerate(NAMES):
+            rw, ro = self.caps(a, i)
+            kind = a["k%d" % i]
+            child = node_stub("child%d" % i, get_write_uri=lambda I_, a_, k_, rw=rw: rw, get_readonly_uri=lambda I_, a_, k_, ro=ro: ro, raise_error=noop,
+                              is_allowed_in_immutable_directory=lambda I_, a_, k_, kind=kind: kind in ("ro", "imm"))
+            md = {"tahoe": {"linkcrtime": 1.5 + i}}
+            plain[name] = (child, md)
+            I.call_value(I.get_attr(listing, "set_with_aux"), [name, (child, md), b"ENTRY-PACKED-UNDER-ANOTHER-DIRECTORYS-WRITE-KEY"], {})
+        r_plain = I.call_value(self.target(I), [plain, a["writekey"]], {})
+        r_listing = I.call_value(self.target(I), [listing, a["writekey"]], {})
+        out = Outcome("return", (r_plain, r_listing))
+        return out
+
+    def ensures(self, I, a, out):
+        r_plain, r_listing = out.value
+        return [("a-listing-from-another-directory-packs-like-the-same-children-given-plainly", as_sstr(r_listing).term == as_sstr(r_plain).term)]
+
+    def canary(self, I, a, out):
+        return [("canary", z3.Length(as_sstr(out.value[0]).term) == 0)]
+
+
 class ImmutableRefusal(Spec):
     file = F
     qualname = "_pack_normalized_children"
@@ -345,4 +383,4 @@ def extra_checks(rep, tier):
 
 
 def contracts(tier):
-    return [PackUnpack(), ImmutableRefusal(), EncryptDecrypt()] + [AllowedInImmutable(*c) for c in ALLOWED_CLASSES]
+    return [PackUnpack(), PackChildren(), ImmutableRefusal(), EncryptDecrypt()] + [AllowedInImmutable(*c) for c in ALLOWED_CLASSES]
